@@ -1052,6 +1052,26 @@ class Function(Ring):
         # rhs = self.totype(rhs)
         # return Function.pushforward(self.x.__class__.__iadd__,[self,rhs])
 
+    def _inplace(self, res):
+        # `v op= r` on arrays (and UTPM arrays) updates the storage of v, also when v is a view of a buffer:
+        # record it as the item assignment v[...] = v op r.  Scalars are rebound, as in Python.
+        if numpy.ndim(self.x) == 0:
+            return res
+        self[Ellipsis] = res
+        return self
+
+    def __iadd__(self,rhs):
+        return self._inplace(self + rhs)
+
+    def __isub__(self,rhs):
+        return self._inplace(self - rhs)
+
+    def __imul__(self,rhs):
+        return self._inplace(self * rhs)
+
+    def __itruediv__(self,rhs):
+        return self._inplace(self / rhs)
+
 
     def __add__(self,rhs):
         rhs = self.totype(rhs)
